@@ -402,6 +402,7 @@ class Prop(fw.PropBase):
         nontrivial, hist_n, hist_reg = set(), {}, {}
         n_ejecting = n_multi = n_pre = n_err = n_pool_differ = 0
         pool_example = None
+        gap = {'runs': 0, 'schedule_dependent_runs': 0, 'example': None}
         pre_inputs = []
         for ci, (case, r) in enumerate(zip(cases, res)):
             absf = r['abs']
@@ -425,6 +426,16 @@ class Prop(fw.PropBase):
                 ok, L, lag = pre_py(absf, cfg)
                 n_pre += ok
                 pre_inputs.append((inp + [L, lag], 1 if ok else 0))
+                # the gap between the theorem's inequality and the property's wording ("shorter than the cache radius"):
+                # everything of the precondition holds except the inequality, and L < cache_size
+                if not ok and L < cfg['cache'] and run['error'] is None and pre_py(absf, dict(cfg, cache=10 ** 12))[0]:
+                    gap['runs'] += 1
+                    if cfg['pooling'] in never and partition(run) != never[cfg['pooling']]:
+                        gap['schedule_dependent_runs'] += 1
+                        if gap['example'] is None or len(absf) < len(gap['example']['abs']):
+                            gap['example'] = {'abs': absf, 'cfg': cfg, 'L': L, 'lag': lag,
+                                              'molecules': [list(x) for x in partition(run)],
+                                              'never_eject': [list(x) for x in never[cfg['pooling']]]}
                 if ej and multi:
                     nontrivial.add(fw.canon_hash(inp))
         self.cov.update({
@@ -439,6 +450,7 @@ class Prop(fw.PropBase):
             'runs_raising': n_err,
             'info_libraries_where_pooling_0_and_1_differ_without_ejection': n_pool_differ,
             'info_pooling_difference_example': pool_example,
+            'info_gap_inequality_fails_but_L_below_cache_size': gap,
             'precondition_hit_rate': round(n_pre / max(1, len(inputs)), 4),
             'library_size_histogram': {str(k): v for k, v in sorted(hist_n.items())},
             'schedules': 'every library is run for check_eject_every in {None, 0..n} x pooling_method {0,1} (all schedules '
@@ -529,25 +541,11 @@ def _search(self):
         res = self.run_impl_cases(cases)
     best = {}
     n_checked = 0
-    gap = {'examined': 0, 'schedule_dependent': 0, 'example': None}
     for case, r in zip(cases, res):
         n_checked += len(case['cfgs'])
         for key, text, cfg in spec_violations(case, r):
             if key not in best or len(case['frags']) < len(best[key][0]['frags']):
                 best[key] = (case, cfg, text)
-        # the gap between the theorem's inequality and the property's wording (fragments shorter than cache_size)
-        absf = r['abs']
-        vs = [f for f in absf if f[1]]
-        for cfg, run in zip(case['cfgs'], r['runs']):
-            ok, L, lag = pre_py(absf, cfg)
-            ok_but_ineq, _, _ = pre_py(absf, dict(cfg, cache=10 ** 12))
-            if not ok and ok_but_ineq and L < cfg['cache'] and run['error'] is None:
-                gap['examined'] += 1
-                p0 = [partition(x) for c2, x in zip(case['cfgs'], r['runs']) if c2['every'] is None and c2['pooling'] == cfg['pooling']]
-                if p0 and partition(run) != p0[0]:
-                    gap['schedule_dependent'] += 1
-                    if gap['example'] is None or len(case['frags']) < len(gap['example']['frags']):
-                        gap['example'] = {'frags': case['frags'], 'cls': case['cls'], 'cfg': cfg, 'L': L, 'lag': lag}
     if not best:
         # nothing in the standard streams: a deeper, precondition-focused stream (only reached when something broke)
         import random
@@ -563,8 +561,7 @@ def _search(self):
                     best[key] = (case, cfg, text)
     self.cov['search'] = {'runs_checked_against_spec': n_checked,
                           'spec': 'python transcription of C07_emit_once / C07_no_index_error (all runs) and of '
-                                  'C07_schedule_independent_partition / C07_no_early_eject (runs satisfying preb)',
-                          'gap_L_between_inequality_and_cache': gap}
+                                  'C07_schedule_independent_partition / C07_no_early_eject (runs satisfying preb)'}
     for key, (case, cfg, text) in best.items():
         small = self.shrink(case, cfg, key)
         r2 = self.run_impl_cases([small])[0]
@@ -604,6 +601,33 @@ def _shrink(self, case, cfg, key):
     return cur
 
 
+GAP_KEY = 'partition-depends-on-schedule:fragment-longer-than-half-cache'
+GAP_INPUT = {'frags': [{'chrom': 0, 'sm': 0, 'rx': 'AAA', 'qcfail': False, 'r1': [100, 10, False], 'r2': None},
+                       {'chrom': 0, 'sm': 0, 'rx': 'CCC', 'qcfail': False, 'r1': [105, 31, False], 'r2': None},
+                       {'chrom': 0, 'sm': 0, 'rx': 'AAA', 'qcfail': False, 'r1': [106, 4, False], 'r2': None}],
+             'cls': 'Fragment', 'base': {'cache': 40, 'radius': 0, 'hd': 0, 'yield_invalid': False}}
+
+
+def _replay_known(self, finding):
+    """known finding (outside the theorems' inequality, inside the property's wording): start-sorted reads on one
+    contig, every fragment shorter than cache_size=40, the middle one longer than cache_size/2; true while the
+    implementation still yields different molecules for check_eject_every=0 and None"""
+    if finding.get('key') != GAP_KEY:
+        return False
+    case = {'frags': GAP_INPUT['frags'], 'cls': GAP_INPUT['cls'], 'cfgs': Prop.all_schedules(GAP_INPUT['base'], 3)}
+    r = self.run_impl_cases([case])[0]
+    parts = {(c['pooling'], c['every']): partition(x) for c, x in zip(case['cfgs'], r['runs']) if x['error'] is None}
+    return any(parts.get((p, 0)) != parts.get((p, None)) for p in (0, 1))
+
+
+def _matches(self, finding, witness):
+    # witnesses are only produced for inputs satisfying the precondition, so the long-fragment finding can never
+    # absorb one of them; identity of keys only
+    return finding.get('key') == witness.get('key') == GAP_KEY
+
+
+Prop.replay_known = _replay_known
+Prop.matches = _matches
 Prop.search = _search
 Prop.shrink = _shrink
 
